@@ -276,3 +276,64 @@ theorem classify_last_not_retry (c : Cfg) (k : Kind) : (classify c true k).isRet
   cases k <;> simp [classify, Step.isRetry]
 
 end Retry
+
+namespace Retry
+
+theorem stepInv_done (v : InFlight) (r : Res) (h : v.res = some r) : stepInv v = v := by
+  unfold stepInv; rw [h]
+
+theorem iterate_done (n : Nat) (v : InFlight) (r : Res) (h : v.res = some r) : runQuanta (n) v = v := by
+  induction n with
+  | zero => rfl
+  | succ n ih => simp only [runQuanta]; rw [stepInv_done v r h, ih]
+
+/-- enough quanta run an invocation to the end of its big-step run -/
+theorem iterate_stepInv (c : Cfg) (a : Nat) (outs : List Outcome) (tr : List Ev) (n : Nat) (hn : outs.length + 1 ≤ n) :
+    (runQuanta (n) ⟨c, a, outs, tr, none⟩).res = some (loop c a outs).res ∧
+    (runQuanta (n) ⟨c, a, outs, tr, none⟩).trace = tr ++ (loop c a outs).trace := by
+  induction outs generalizing a tr n with
+  | nil =>
+    obtain ⟨m, rfl⟩ : ∃ m, n = m + 1 := ⟨n - 1, by omega⟩
+    simp only [runQuanta]
+    by_cases ha : a < c.maxAttempts
+    · have hs : stepInv ⟨c, a, [], tr, none⟩ = ⟨c, a, [], tr, some .pending⟩ := by
+        simp [stepInv]; omega
+      rw [hs, iterate_done m _ .pending rfl, loop_nil c a ha]; simp
+    · have hs : stepInv ⟨c, a, [], tr, none⟩ = ⟨c, a, [], tr, some .fellThrough⟩ := by
+        simp [stepInv]; omega
+      rw [hs, iterate_done m _ .fellThrough rfl, loop_ge c a _ (by omega)]; simp
+  | cons o rest ih =>
+    obtain ⟨m, rfl⟩ : ∃ m, n = m + 1 := ⟨n - 1, by omega⟩
+    simp only [runQuanta]
+    by_cases ha : a < c.maxAttempts
+    · cases hs : classify c (a + 1 == c.maxAttempts) o.kind
+      · have : stepInv ⟨c, a, o :: rest, tr, none⟩ = ⟨c, a, rest, tr ++ [.call], some (.returned o)⟩ := by
+          simp only [stepInv]; rw [if_neg (by omega)]; simp only [hs]
+        rw [this, iterate_done m _ _ rfl, loop_ret c a o rest ha hs]; simp
+      · have : stepInv ⟨c, a, o :: rest, tr, none⟩ = ⟨c, a, rest, tr ++ [.call], some (.raised o)⟩ := by
+          simp only [stepInv]; rw [if_neg (by omega)]; simp only [hs]
+        rw [this, iterate_done m _ _ rfl, loop_raise c a o rest ha hs]; simp
+      · have : stepInv ⟨c, a, o :: rest, tr, none⟩ = ⟨c, a + 1, rest, tr ++ [.call, .sleep c.sleepTime], none⟩ := by
+          simp only [stepInv]; rw [if_neg (by omega)]; simp only [hs]
+        rw [this, loop_retrySleep c a o rest ha hs]
+        have := ih (a + 1) (tr ++ [.call, .sleep c.sleepTime]) m (by simp at hn; omega)
+        simp [this]
+    · have hs : stepInv ⟨c, a, o :: rest, tr, none⟩ = ⟨c, a, o :: rest, tr, some .fellThrough⟩ := by
+        simp only [stepInv]; rw [if_pos (by omega)]
+      rw [hs, iterate_done m _ .fellThrough rfl, loop_ge c a _ (by omega)]; simp
+
+/-- the schedule touches an invocation only in its own quanta -/
+theorem runSchedule_get (sched : List Nat) (invs : List InFlight) (j : Nat) :
+    (runSchedule sched invs)[j]? = (invs[j]?).map (runQuanta (sched.count j)) := by
+  induction sched generalizing invs with
+  | nil => cases h : invs[j]? <;> simp [runSchedule, runQuanta, h]
+  | cons i rest ih =>
+    simp only [runSchedule, List.foldl_cons] at ih ⊢
+    rw [ih (invs.modify i stepInv)]
+    by_cases hij : i = j
+    · subst hij
+      simp [List.getElem?_modify, List.count_cons]
+      cases invs[i]? <;> simp [runQuanta]
+    · simp [List.getElem?_modify, hij, List.count_cons]
+
+end Retry
